@@ -11,6 +11,12 @@ open Rpylib Rpylib.Sde
         -> `<X fine> <X coarse>`
   df <x0> <tenors> <ts>       -> list of model.df(t) (`err` where the call raises IndexError)
   dfold <x0> <tenors> <ts>    -> the curve before the fix
+  shape <const|diag|scale> <m> <d> <stacked 0|1> <M> <x0> <x1> <u0> <u1>
+        -> `<shape of a(t,z)> <its entries, row-major> <shape of a(t,z) @ v> <its entries>` (`err` for a NumPy exception):
+           the coefficient object called on the column state (m,1) of x0 / on the stacked state (2,m,1) of (x0, x1), then
+           multiplied with the (d,1) column of u0 / the (2,d,1) stack of (u0, u1); M = the constant matrix / sigma(t)
+  shapel <m> <d> <stacked 0|1> <sigma> <tenors> <t> <x0> <x1> <u0> <u1>
+        -> the same for `LiborSDEFunction`: sigma(t) is the model's `liborSigma sigma tenors t`
 -/
 /- Vectors of the model are closures; iterating `eulerStep` on closures would re-evaluate the whole history at every
    component access.  The driver therefore materialises the state after every step (`vecOf (toList m ·)`) and runs M's
@@ -40,8 +46,36 @@ def runPair (S : SdePair) (P : DriverPair) (m : Nat) : Nat → Nat → List Rat 
     let (a, b) := runPair S P m fuel (i + 1) w0 w1
     (z0 :: a, z1 :: b)
 
+/-- all multi-indices of a shape, row-major -/
+def allIdx : List Nat → List (List Nat)
+  | [] => [[]]
+  | n :: r => (List.range n).flatMap (fun i => (allIdx r).map (fun t => i :: t))
+
+def showArr : Option NArr → String
+  | none => "err err"
+  | some a => showNatList a.shape ++ " " ++ showRatList ((allIdx a.shape).map a.get)
+
 def step (tk : List String) : String :=
   match tk with
+  | ["shapel", m, d, st, M, tenors, t, x0, x1, u0, u1] =>
+    match parseNat? m, parseNat? d, parseListListWith? parseRat? M, parseRatList? tenors, parseRat? t, parseRatList? x0,
+          parseRatList? x1, parseRatList? u0, parseRatList? u1 with
+    | some m, some d, some M, some tenors, some t, some x0, some x1, some u0, some u1 =>
+      let z := if st == "1" then stack2 (colArr m (vecOf x0)) (colArr m (vecOf x1)) else colArr m (vecOf x0)
+      let v := if st == "1" then stack2 (colArr d (vecOf u0)) (colArr d (vecOf u1)) else colArr d (vecOf u0)
+      let a := scaleCall m d (liborSigma (matOf M) (vecOf tenors) t) z
+      showArr a ++ " " ++ showArr (applyCoef a v)
+    | _, _, _, _, _, _, _, _, _ => "bad-op"
+  | ["shape", cls, m, d, st, M, x0, x1, u0, u1] =>
+    match parseNat? m, parseNat? d, parseListListWith? parseRat? M, parseRatList? x0, parseRatList? x1,
+          parseRatList? u0, parseRatList? u1 with
+    | some m, some d, some M, some x0, some x1, some u0, some u1 =>
+      let z := if st == "1" then stack2 (colArr m (vecOf x0)) (colArr m (vecOf x1)) else colArr m (vecOf x0)
+      let v := if st == "1" then stack2 (colArr d (vecOf u0)) (colArr d (vecOf u1)) else colArr d (vecOf u0)
+      let a := if cls == "const" then constCall m d (matOf M) z else if cls == "diag" then diagCall z
+               else scaleCall m d (matOf M) z
+      showArr a ++ " " ++ showArr (applyCoef a v)
+    | _, _, _, _, _, _, _ => "bad-op"
   | ["euler", d, m, C, D, e, be, ga, mu, x0, ts, W, L] =>
     match parseNat? d, parseNat? m, parseListListWith? parseRat? C, parseListListWith? parseRat? D, parseRat? e,
           parseRat? be, parseRat? ga, parseRatList? mu, parseRatList? x0, parseRatList? ts,
